@@ -71,6 +71,13 @@ def rel_lt(facts, a, b):
         return False
     if ("lt", sa, sb) in facts:
         return True
+    # a <= max(a, y) < b ; a < min(b, y) <= b
+    for k in facts:
+        if isinstance(k, tuple) and len(k) == 3 and k[0] == "lt":
+            if k[2] == sb and isinstance(k[1], tuple) and k[1][0] == "max" and sa in k[1][1:]:
+                return True
+            if k[1] == sa and isinstance(k[2], tuple) and k[2][0] == "min" and sb in k[2][1:]:
+                return True
     # a <= c < b or a < c <= b through one intermediate value
     for k in facts:
         if isinstance(k, tuple) and len(k) == 3 and k[0] in ("lt", "le") and k[1] == sa:
@@ -366,6 +373,13 @@ class Analyzer:
         l = p["l"]
         proj = p.get("p", [])
         if not proj:
+            if v is not None and v.get("k") == "top":
+                # an unknown value stored in a local of integer type is an unknown INTEGER: it has the type's range, can be refined by
+                # comparisons and is an operand of the sites it reaches (index, length, shift amount) like any other
+                r = ty_range(fn.local_ty(l))
+                if r:
+                    v = mk(r[0], r[1], bool(v.get("t")))
+                    v["s"] = self.fresh("top", fn, l)
             st[l] = v
             return
         if proj[0] == "deref":
@@ -1542,7 +1556,13 @@ def _record(self, summ, fn, b, i, kind, desc, safe, tainted, chain, detail=None,
         self.undecided.setdefault(f"{fn.nname}/{kind}:{desc} @{fn.loc(b, i)}", fn.loc(b, i))
         self._log_site(fn, b, i, kind, desc, "undecided")
         return
-    if not safe and tainted and operands and any(_unknown_len(o) and (kind == "panic" or not self._compared(o)) for o in operands):
+    und_ops = operands
+    if kind == "BoundsCheck" and len(operands) == 2:
+        # (length or sequence, index): an INDEX that is an untracked value the path never compared with anything is not "undecided" — a
+        # missing bounds check looks exactly like that; only an unknown LENGTH (built in a loop, or an untracked element) is
+        a_, b_ = operands
+        und_ops = (a_,) if (a_.get("k") == "seq" or b_.get("k") != "seq") else (b_,)
+    if not safe and tainted and und_ops and any(_unknown_len(o) and (kind == "panic" or not self._compared(o)) for o in und_ops):
         # not decided: the deciding operand is a loop-built length / untracked element the code never compared on this path
         self.stats["undecided_loop_length"] += 1
         self.undecided.setdefault(f"{fn.nname}/{kind}:{desc} @{fn.loc(b, i)}", fn.loc(b, i))
@@ -2012,9 +2032,17 @@ def _std(self, fn, st, b, t, cn, last, args, dargs, targ, summ, chain, tctrl):
         return mk(0, 1, targ)
     if (cn.startswith("core::cmp::") and last in ("min", "max") and ints(0, 1)) or (cn.endswith(("Ord::min", "Ord::max")) and ints(0, 1)):
         a, c = dargs[0], dargs[1]
+        tag = None
+        if a.get("s") is not None and c.get("s") is not None:
+            sa, sb = a["s"], c["s"]
+            if repr(sb) < repr(sa):
+                sa, sb = sb, sa
+            tag = (last, sa, sb)      # ("max", x, y) >= x, y ; ("min", x, y) <= x, y : used by rel_lt
+            if tag_depth(tag) > 4:
+                tag = None
         if last == "min":
-            return mk(min(a["lo"], c["lo"]), min(a["hi"], c["hi"]), targ)
-        return mk(max(a["lo"], c["lo"]), max(a["hi"], c["hi"]), targ)
+            return mk(min(a["lo"], c["lo"]), min(a["hi"], c["hi"]), targ, s=tag)
+        return mk(max(a["lo"], c["lo"]), max(a["hi"], c["hi"]), targ, s=tag)
     # conversions
     if cn.startswith("core::convert::"):
         a = dargs[0] if dargs else top()
